@@ -35,6 +35,15 @@ Lemma is_pending_idle s : ms_is_pending s = negb (ms_is_idle s).
 Proof. reflexivity. Qed.
 
 (* the priority order as guards: whatever is chosen, everything of higher priority is settled *)
+Lemma ok_of_false a b : a && negb b = false -> negb a || b = true.
+Proof. destruct a, b; cbn; auto. Qed.
+Lemma ok_of_false' a b : negb b && negb a = false -> a || b = true.
+Proof. destruct a, b; cbn; auto. Qed.
+Lemma pending_of_true a b : a && negb b = true -> b = false.
+Proof. destruct a, b; cbn; auto; discriminate. Qed.
+Lemma pending_of_true' a b : negb b && a = true -> b = false.
+Proof. destruct a, b; cbn; auto; discriminate. Qed.
+
 Theorem auto_choice_guards : forall c ts ev,
   match auto_choice_of c ts ev with
   | CClear => True
@@ -50,12 +59,16 @@ Theorem auto_choice_guards : forall c ts ev,
 Proof.
   intros c ts ev. unfold auto_choice_of, dis_ok, integ_ok, time_ok, en_ok.
   rewrite !is_pending_idle.
-  destruct (ms_is_idle (ms_ts_clear ts)); cbn [negb]; [|exact I].
-  destruct (ms_ev_any (ms_c_disable c)), (ms_is_idle (ms_ts_disable ts)); cbn [negb andb orb]; auto;
-  destruct (ms_cl_any (ms_c_integrity c)), (ms_is_idle (ms_ts_integrity ts)); cbn [negb andb orb]; auto;
-  destruct (ms_is_idle (ms_ts_time ts)), (N.eqb (ms_c_tsync c) 0); cbn [negb andb orb]; auto;
-  destruct (ms_ev_any (ms_c_enable c)), (ms_is_idle (ms_ts_enable ts)); cbn [negb andb orb]; auto;
-  destruct (ms_ev_any _); auto.
+  destruct (ms_is_idle (ms_ts_clear ts)) eqn:E1; cbn [negb]; [|exact I].
+  destruct (ms_ev_any (ms_c_disable c)) eqn:A2, (ms_is_idle (ms_ts_disable ts)) eqn:B2;
+    cbn [negb andb orb]; try reflexivity;
+  (destruct (ms_cl_any (ms_c_integrity c)) eqn:A3, (ms_is_idle (ms_ts_integrity ts)) eqn:B3;
+    cbn [negb andb orb]; try (split; reflexivity);
+   (destruct (ms_is_idle (ms_ts_time ts)) eqn:B4, (N.eqb (ms_c_tsync c) 0) eqn:A4;
+     cbn [negb andb orb]; try (repeat split; reflexivity);
+    (destruct (ms_ev_any (ms_c_enable c)) eqn:A5, (ms_is_idle (ms_ts_enable ts)) eqn:B5;
+      cbn [negb andb orb]; try (repeat split; reflexivity);
+     destruct (ms_ev_any (N.land (N.land ev (ms_c_evscan c)) 7)); repeat split; reflexivity))).
 Qed.
 
 Definition task_choice (t : ms_task) : auto_choice :=
@@ -106,14 +119,15 @@ Proof.
   { intros s t Hs. destruct s; cbn in *; try discriminate. destruct (nx <=? now); discriminate. }
   destruct (ms_is_idle (ms_ts_clear ts)) eqn:E1; cbn [negb].
   2:{ intros H. exfalso. eapply Hc; eauto. }
-  destruct (ms_ev_any (ms_c_disable c)) eqn:E2, (ms_is_idle (ms_ts_disable ts)) eqn:E3; cbn [negb andb orb];
-    try (intros H; exfalso; eapply Hc; eauto; fail);
-  destruct (ms_cl_any (ms_c_integrity c)) eqn:E4, (ms_is_idle (ms_ts_integrity ts)) eqn:E5; cbn [negb andb orb];
-    try (intros H; exfalso; eapply Hc; eauto; fail);
-  destruct (ms_is_idle (ms_ts_time ts)) eqn:E6, (N.eqb (ms_c_tsync c) 0) eqn:E7; cbn [negb andb orb];
-    try (intros H; exfalso; eapply Hc; eauto; fail);
-  destruct (ms_ev_any (ms_c_enable c)) eqn:E8, (ms_is_idle (ms_ts_enable ts)) eqn:E9; cbn [negb andb orb];
-    try (intros H; exfalso; eapply Hc; eauto; fail); auto.
+  destruct (ms_ev_any (ms_c_disable c)) eqn:A2, (ms_is_idle (ms_ts_disable ts)) eqn:B2;
+    cbn [negb andb orb]; try (intros H; exfalso; eapply Hc; [exact B2|exact H]);
+  (destruct (ms_cl_any (ms_c_integrity c)) eqn:A3, (ms_is_idle (ms_ts_integrity ts)) eqn:B3;
+    cbn [negb andb orb]; try (intros H; exfalso; eapply Hc; [exact B3|exact H]);
+   (destruct (ms_is_idle (ms_ts_time ts)) eqn:B4, (N.eqb (ms_c_tsync c) 0) eqn:A4;
+     cbn [negb andb orb]; try (intros H; exfalso; eapply Hc; [exact B4|exact H]);
+    (destruct (ms_ev_any (ms_c_enable c)) eqn:A5, (ms_is_idle (ms_ts_enable ts)) eqn:B5;
+      cbn [negb andb orb]; try (intros H; exfalso; eapply Hc; [exact B5|exact H]);
+     intros _; repeat split; reflexivity))).
 Qed.
 
 (* Association::get_next_task: a periodic poll or a keep-alive is returned only when no automatic
@@ -395,44 +409,109 @@ Proof. destruct s; cbn; discriminate. Qed.
 
 Lemma eqb_refl_N a : N.eqb a a = true. Proof. apply N.eqb_refl. Qed.
 
-Lemma hfold_other_single X A B acc o : B <> A ->
-  (forall a, match o with
-             | MsOOk _ x _ _ _ | MsOFail _ x _ _ | MsORestartSeen _ x | MsOCleared _ x => x = A
-             | MsOClosed _ _ => False
-             | _ => True end) ->
-  hfold X B acc [o] = acc.
+(* observations that concern association A only (and never the whole channel) *)
+Definition about (A : N) (o : ms_obs) : Prop :=
+  match o with
+  | MsOOk _ x _ _ _ | MsOFail _ x _ _ | MsORestartSeen _ x | MsOCleared _ x => x = A
+  | MsOClosed _ _ => False
+  | _ => True
+  end.
+
+Lemma hstep_other X A B acc o : B <> A -> about A o -> hstep X B acc o = acc.
 Proof.
-  intros HB Ho. unfold hfold. cbn [fold_left]. unfold hstep.
+  intros HB Ho. unfold hstep.
   assert (E : N.eqb A B = false) by (apply N.eqb_neq; congruence).
-  specialize (Ho 0%N).
-  destruct o; cbn [obs_effect]; try reflexivity; try contradiction; subst; rewrite ?E; try reflexivity.
+  destruct o; cbn [obs_effect about] in *; try reflexivity; try contradiction; subst; rewrite ?E;
+    try reflexivity.
   destruct e; reflexivity.
+Qed.
+
+Lemma hfold_other X A B acc o : B <> A -> Forall (about A) o -> hfold X B acc o = acc.
+Proof.
+  intros HB. unfold hfold. revert acc. induction o as [|x o IH]; intros acc F; [reflexivity|].
+  inversion F; subst. cbn [fold_left]. rewrite (hstep_other X A B) by assumption. apply IH. assumption.
+Qed.
+
+Lemma LS_lower a a' :
+  ms_a_addr a' = ms_a_addr a -> ms_a_cfg a' = ms_a_cfg a ->
+  (forall X, flag X a' = true -> flag X a = true) -> LS a [] a'.
+Proof. intros. apply LS_neutral; auto. Qed.
+
+(* a step that only touches the time-sync or event-scan state, the events or the sequence number *)
+Lemma LS_set_time a s : LS a [] (ms_set_auto a (ms_with_time (ms_a_auto a) s)).
+Proof. apply LS_lower; try reflexivity. intros X; destruct X; cbn; auto. Qed.
+Lemma LS_set_evscan a s : LS a [] (ms_set_auto a (ms_with_evscan (ms_a_auto a) s)).
+Proof. apply LS_lower; try reflexivity. intros X; destruct X; cbn; auto. Qed.
+Lemma LS_set_events a e : LS a [] (ms_set_events a e).
+Proof. apply LS_lower; try reflexivity. intros X; destruct X; cbn; auto. Qed.
+Lemma LS_set_seq a e : LS a [] (ms_set_seq a e).
+Proof. apply LS_lower; try reflexivity. intros X; destruct X; cbn; auto. Qed.
+Lemma LS_set_queue a q : LS a [] (ms_set_queue a q).
+Proof. apply LS_lower; try reflexivity. intros X; destruct X; cbn; auto. Qed.
+Lemma LS_set_polls a p n : LS a [] (ms_set_polls a p n).
+Proof. apply LS_lower; try reflexivity. intros X; destruct X; cbn; auto. Qed.
+Lemma LS_set_last_unsol a u : LS a [] (ms_set_last_unsol a u).
+Proof. apply LS_lower; try reflexivity. intros X; destruct X; cbn; auto. Qed.
+Lemma LS_link_activity now a : LS a [] (ms_link_activity now a).
+Proof. apply LS_lower; try reflexivity. intros X; destruct X; cbn; auto. Qed.
+
+(* a state is lowered: it is not idle afterwards unless it was idle before *)
+Definition lowers (s s' : ms_auto_state) : Prop := ms_is_idle s' = true -> ms_is_idle s = true.
+Lemma lowers_demand s : lowers s (ms_demand s).
+Proof. intros H. exfalso. eapply demand_idle; eauto. Qed.
+Lemma lowers_failure c now s : lowers s (ms_auto_failure c now s).
+Proof. unfold lowers, ms_auto_failure. destruct (ms_on_failure _ _). cbn. discriminate. Qed.
+
+Lemma LS_lower_integrity a s : lowers (ms_ts_integrity (ms_a_auto a)) s ->
+  LS a [] (ms_set_auto a (ms_with_integrity (ms_a_auto a) s)).
+Proof. intros L. apply LS_lower; try reflexivity. intros X; destruct X; cbn; auto. Qed.
+Lemma LS_lower_disable a s : lowers (ms_ts_disable (ms_a_auto a)) s ->
+  LS a [] (ms_set_auto a (ms_with_disable (ms_a_auto a) s)).
+Proof. intros L. apply LS_lower; try reflexivity. intros X; destruct X; cbn; auto. Qed.
+Lemma LS_lower_enable a s : lowers (ms_ts_enable (ms_a_auto a)) s ->
+  LS a [] (ms_set_auto a (ms_with_enable (ms_a_auto a) s)).
+Proof. intros L. apply LS_lower; try reflexivity. intros X; destruct X; cbn; auto. Qed.
+Lemma LS_lower_clear a s : lowers (ms_ts_clear (ms_a_auto a)) s ->
+  LS a [] (ms_set_auto a (ms_with_clear (ms_a_auto a) s)).
+Proof. intros L. apply LS_lower; try reflexivity. intros X; destruct X; cbn; auto. Qed.
+
+Lemma on_restart_LS now a : forall a' o, ms_on_restart now a = (a', o) -> LS a o a'.
+Proof.
+  intros a' o. unfold ms_on_restart.
+  destruct (ms_is_idle (ms_ts_clear (ms_a_auto a))) eqn:EC; intros H; inversion H; subst; clear H.
+  - repeat split.
+    + intros X HX. unfold hfold. cbn [fold_left]. unfold hstep. cbn [obs_effect]. rewrite N.eqb_refl.
+      destruct X; cbn in HX |- *.
+      * exact HX.
+      * exfalso; eapply demand_idle; exact HX.
+      * exfalso; eapply demand_idle; exact HX.
+      * discriminate.
+      * exfalso; eapply demand_idle; exact HX.
+    + intros X B acc HB. apply hfold_other with (A := ms_a_addr a); [exact HB|]. repeat constructor.
+  - apply LS_refl.
 Qed.
 
 Lemma process_iin_LS now f a : forall a' o, ms_process_iin now f a = (a', o) -> LS a o a'.
 Proof.
-  intros a' o. unfold ms_process_iin, ms_on_restart.
-  destruct (ms_iin_restart f) eqn:ER.
-  - destruct (ms_is_idle (ms_ts_clear (ms_a_auto a))) eqn:EC.
-    + intros H. inversion H; subst; clear H. repeat split.
-      * repeat match goal with |- context [if ?b then _ else _] => destruct b end; reflexivity.
-      * repeat match goal with |- context [if ?b then _ else _] => destruct b end; reflexivity.
-      * intros X HX. unfold hfold. cbn [fold_left]. unfold hstep. cbn [obs_effect]. rewrite eqb_refl_N.
-        destruct X; try reflexivity; exfalso; revert HX;
-          repeat match goal with |- context [if ?b then _ else _] => destruct b end;
-          cbn; try discriminate;
-          repeat match goal with |- context [ms_demand ?s] => destruct s end; cbn; discriminate.
-      * intros X B acc HB. apply hfold_other_single; [exact HB|]. intros _. reflexivity.
-    + intros H. inversion H; subst; clear H. apply LS_neutral; try constructor.
-      * repeat match goal with |- context [if ?b then _ else _] => destruct b end; reflexivity.
-      * repeat match goal with |- context [if ?b then _ else _] => destruct b end; reflexivity.
-      * intros X. destruct X; cbn [flag];
-          repeat match goal with |- context [if ?b then _ else _] => destruct b end;
-          cbn; auto; intros HX; try (exfalso; eapply demand_idle; exact HX).
-  - intros H. inversion H; subst; clear H. apply LS_neutral; try constructor.
-    * repeat match goal with |- context [if ?b then _ else _] => destruct b end; reflexivity.
-    * repeat match goal with |- context [if ?b then _ else _] => destruct b end; reflexivity.
-    * intros X. destruct X; cbn [flag];
-        repeat match goal with |- context [if ?b then _ else _] => destruct b end;
-        cbn; auto; intros HX; try (exfalso; eapply demand_idle; exact HX).
+  intros a' o. unfold ms_process_iin.
+  destruct (if ms_iin_restart f then ms_on_restart now a else (a, [])) as [a1 seen] eqn:E1.
+  assert (L1 : LS a seen a1).
+  { destruct (ms_iin_restart f); [eapply on_restart_LS; exact E1|]. inversion E1; subst. apply LS_refl. }
+  clear E1. intros H. inversion H; subst; clear H.
+  rewrite <- (app_nil_r o). eapply LS_trans; [exact L1|].
+  set (a2 := if ms_iin_need_time f then _ else a1).
+  assert (L2 : LS a1 [] a2).
+  { subst a2. destruct (ms_iin_need_time f); [apply LS_set_time|apply LS_refl]. }
+  set (a3 := if ms_iin_overflow f && ms_c_ovf (ms_a_cfg a2) then _ else a2).
+  assert (L3 : LS a2 [] a3).
+  { subst a3. destruct (ms_iin_overflow f && ms_c_ovf (ms_a_cfg a2));
+      [apply LS_lower_integrity, lowers_demand|apply LS_refl]. }
+  set (a4 := ms_set_events a3 (ms_iin_events f)).
+  assert (L4 : LS a3 [] a4) by apply LS_set_events.
+  assert (L5 : LS a4 [] (if ms_ev_any (N.land (ms_a_events a4) (ms_c_evscan (ms_a_cfg a4)))
+                         then ms_set_auto a4 (ms_with_evscan (ms_a_auto a4) (ms_demand (ms_ts_evscan (ms_a_auto a4))))
+                         else a4)).
+  { destruct (ms_ev_any _); [apply LS_set_evscan|apply LS_refl]. }
+  change (@nil ms_obs) with (@nil ms_obs ++ [] ++ [] ++ []).
+  eapply LS_trans; [exact L2|]. eapply LS_trans; [exact L3|]. eapply LS_trans; [exact L4|exact L5].
 Qed.
